@@ -6,6 +6,7 @@ CONSTANTS
   BatchSz = 2
   InCap = 0
   AsyncHWM = FALSE
+  SigCap = 2
   MaxFlips = 99
   MaxLeaders = 1
   MaxRestarts = 0
@@ -19,6 +20,7 @@ CONSTANTS
   HWMAfterSendOK = TRUE
   PruneToHWMOnly = TRUE
   RewindCursor = FALSE
+  ParkedKeptUntilSent = TRUE
   RestartHWMBelowLowest = TRUE
   DropReapplied = TRUE
-INVARIANTS TypeOK Labelled NoSkip TenureOrder TakenStored KeysBounded
+INVARIANTS TypeOK Labelled NoSkip TenureOrder TakenStored KeysBounded LoopShape
